@@ -8,15 +8,27 @@ use num_traits::{sign::Signed, One, ToPrimitive, Zero};
 use serde_derive::{Deserialize, Serialize};
 use std::cmp::Ord;
 use std::fmt;
+use std::hash::{Hash, Hasher};
 use std::ops::{Add, Div, Mul, Neg, Rem, Sub};
 
 use crate::output::Digits;
 
 use super::BigInt;
 
-#[derive(Clone, Debug, PartialEq, Eq, PartialOrd, Ord, Serialize, Deserialize, Hash)]
+#[derive(Clone, Debug, PartialEq, Eq, PartialOrd, Ord, Serialize, Deserialize)]
 pub struct BigRat {
     inner: NumRat,
+}
+
+impl Hash for BigRat {
+    // `Ratio`'s own `Hash` calls itself once for every term of the
+    // number's continued fraction, about two per digit, and overflows
+    // the stack on numbers with some ten thousand digits.
+    fn hash<H: Hasher>(&self, state: &mut H) {
+        let reduced = self.inner.reduced();
+        reduced.numer().hash(state);
+        reduced.denom().hash(state);
+    }
 }
 
 impl BigRat {
